@@ -213,6 +213,15 @@ func runImport(t *testing.T, rc *RunCtx) {
 			if v < 0 {
 				v = 0
 			}
+			switch ch.Pick(12, 0) {
+			case 10: // decimal with leading zeros: still that decimal number
+				rc.Stats.Inc("probe_zero_padded_numbers", 1)
+				return strings.Repeat("0", 1+ch.Pick(3, 0)) + strconv.FormatInt(v, 10)
+			case 11: // a larger zero-padded value made of the digits 0-7 only
+				rc.Stats.Inc("probe_zero_padded_numbers", 1)
+				v = v*8 + 64
+				return "0" + strconv.FormatInt(v, 8) // the decimal number spelled with these digits
+			}
 			return strconv.FormatInt(v, 10)
 		}
 		nData := 1 + ch.Pick(5, 0)
